@@ -434,7 +434,7 @@ def _generate_subctls(snapshot, ctls, subctls, rst_handler, cg):
                     else:
                         comment = cg.get_comment(Instruction(a, snapshot[a:a + size]))
                     subctls[start].append((a, ' ', None, comment))
-                if rst_args:
+                if rst_args and a + size <= blocks[i + 1][0]:
                     rst_args_len = sum(s[0] for s in rst_args[1])
                     subctls[start].append((a + size - rst_args_len, *rst_args, None))
 
